@@ -4,6 +4,7 @@ import (
 	"context"
 	"errors"
 	"fmt"
+	"os"
 	"path/filepath"
 
 	anystore "github.com/anyproto/any-store"
@@ -441,9 +442,15 @@ func (w *world) stepTree() {
 			what = "root: " + rwhat + "; " + what
 		}
 		changes := append([]*treechangeproto.RawTreeChangeWithId{rootc}, batch...)
+		// offered to a node that does not hold the tree: an empty store
+		t.n++
+		vdir := w.sub(fmt.Sprintf("validate-%d", t.n))
+		vdb := simlib.OpenStore(filepath.Join(vdir, "store.db"))
 		w.guard("objecttree.ValidateRawTree", what, size+len(rootc.RawChange), func() error {
-			return objecttree.ValidateRawTree(treestorage.TreeStorageCreatePayload{RootRawChange: rootc, Changes: changes, Heads: []string{batch[len(batch)-1].Id}}, t.victim.acl, t.victim.db)
+			return objecttree.ValidateRawTree(treestorage.TreeStorageCreatePayload{RootRawChange: rootc, Changes: changes, Heads: []string{batch[len(batch)-1].Id}}, t.victim.acl, vdb)
 		})
+		_ = vdb.Close()
+		_ = os.RemoveAll(vdir)
 	}
 }
 
